@@ -2,7 +2,8 @@
 (* Trace validation for C07 at the keyset level: streamingaead.New(handle) over      *)
 (* several real keys; every recorded Read of the wrapped primitive's reader          *)
 (* (decrypt_reader.go) is matched against KeysetReader (sys/).                       *)
-(* Events: reset [cands, writer], Stream [N, m, srcFail, len], Read, end.            *)
+(* Events: reset [cands, writer], Setup (only when setting up failed), Stream [N, m, *)
+(* srcFail, len], Read, end.                                                         *)
 (* Returned bytes are logged by their position in the plaintext (off; -1 = not a     *)
 (* piece of the plaintext).  Two judgements per event and the mismatch classes as in *)
 (* Trace_Streaming: the property on the observed behaviour (obs), and conformance    *)
@@ -97,6 +98,11 @@ TNext ==
        IF e.ev = "reset" THEN Reset(e)
        ELSE IF e.ev = "end"
          THEN /\ UNCHANGED kvars /\ bad' = ToBad(obs.note) /\ obs' = [obs EXCEPT !.note = <<>>]
+       ELSE IF e.ev = "Setup"       \* building the primitives, encrypting with the primary, or NewDecryptingReader did not
+         THEN /\ UNCHANGED kvars     \* go as for legal keys: streamingaead.New / the key type refused, or the constructor did I/O
+              /\ bad' = IF e.err THEN <<"[property] a keyset of legal streaming-AEAD keys is refused or cannot encrypt / open a reader", e.what>>
+                        ELSE <<"[model] NewDecryptingReader of the wrapped primitive reads from the source", e.what>>
+              /\ obs' = obs
        ELSE IF e.ev = "Stream" /\ Guard(e) THEN StreamStep(e)
        ELSE LET g == Guard(e)
                 p == Prop(e)
